@@ -258,8 +258,11 @@ def run(tier, v):
             if "panic" in o:
                 v.violation({"run": m, "observed": "panic: " + o["panic"]})
                 continue
+            if o.get("skipped"):
+                continue
             if o["timed_out"] and any(w["q"] for w in o["stats"]["workers"]):
-                raise vlib.ToolError("pool run %d did not drain within 30 s (packets still queued)" % o["id"])
+                v.violation({"run": m, "observed": "packets that were reported queued are still in a queue after 30 s: a worker of the pool no longer takes packets"})
+                continue
             # (timed out with empty queues: queued packets vanished; their results are missing in the comparison below)
             # the queues (4096) are far longer than any trace here, so a dropped dispatch is not an overflow: it is a packet the
             # pool refuses to route, and its sequential results will be missing below
@@ -298,8 +301,11 @@ def run(tier, v):
             if "panic" in o:
                 v.violation({"run": m, "observed": "panic: " + o["panic"]})
                 continue
+            if o.get("skipped"):
+                continue
             if o.get("hung"):
-                raise vlib.ToolError("front-end run %d: the result channel was still open after 10 s of silence" % o["id"])
+                v.violation({"run": m, "observed": "the parallel front end does not finish: 10 s after analyze_pcap returned and the last result arrived, the result channel is still open (a worker has not left)"})
+                continue
             par = []
             for r_ in o["results"]:
                 c, d = conn_of_result(m["crate"], r_)
